@@ -32,6 +32,10 @@ configured writable parameter (writeInitParams).  The horizon of an execution is
 Configurations with 'delivery': 'ops' add two more *delivery points* for an external event, at the poll thread's own
 operations on its trigger event: right before wait() looks at the flag (between the computation of the wait time and the
 sleep) and right before clear() - the places where a wake-up can be lost; events only, <= 2 deviations.
+'pollcfg': 'default' configurations (about half) take the poll interval from the *class default* instead of a configured
+value: a configured pollinterval goes through writeInitParams -> update_interval -> trigger() and sets the trigger event
+before the main loop, a class default does not.  'hfactor' lengthens the horizon (default 3 x largest interval) for the
+saturated multi-parameter configuration io+B+S, where a parameter must be able to be overdue for several sweeps.
 'Events only' configurations ('devs': 'events') explore *sequences of external events* (fast on -> interval change -> fast
 off ...): <= 3 deviations, placed at wake-ups only (driver calls keep their default answer and are not deviation points),
 extended event alphabet, horizon EVENT_CAP = 36 choice points.  The horizon of an execution is 3 x the largest interval of the
@@ -53,7 +57,8 @@ Oracle = monitors on the virtual-time trace, phrased from the statement (nothing
      - i.e. the poll comes at the latest one sweep (every other function once) after it became due.
   M2 slow poll ("every polled parameter is refreshed no later than a bounded multiple of the slow interval"): for
      consecutive reads r, r' of a polled parameter (end of run counts as r') the time the thread was idle (not inside a
-     driver call) between r and r' is <= 2 x slowinterval (+EPS).
+     driver call) between r and r' is <= 2 x slowinterval (+EPS); and (b, no starvation under load) once the parameter is
+     overdue by 2 x slowinterval, no other polled parameter is read more than twice before it is read.
   M3 a read function marked @nopoll (plain or handler) is never called during the run.
   M4 the thread body ends only by the horizon: an exception leaving the body, or a return, is "the thread stopped".
      Delays of other modules by failing/slow functions are judged by M1/M2 on every module.
@@ -83,6 +88,10 @@ Oracle calibration (weaker readings taken, derived by reading __pollThread of th
     between two reads of a parameter grows with (#parameters x main-poll work) and the statement only says "bounded
     multiple".  On the unchanged tree the idle time between two reads never exceeds 1.5 x slowinterval (a parameter read
     in the second half of a slow period is skipped once by the `timestamp + slowinterval/2` rule).
+    M2(b) is the count reading of the same sentence for a saturated thread (idle time 0): the code puts all polled
+    parameters of all due modules into ONE list and makes one read per turn, so an overdue parameter waits at most for the
+    rest of the running sweep plus the part of the next sweep before it - every other parameter at most twice (a
+    parameter overdue by 2 x slowinterval is never skipped by the freshness rule and its module is due at every refill).
     The reads made at start-up count as reads; if they were cut short by a communication failure the started-callback
     time is the anchor.
   * a CommonReadHandler group is one polled item (any call of the common function refreshes all its parameters);
@@ -417,6 +426,15 @@ def classes():
     return _classes
 
 
+def with_default_interval(cls, pi):
+    """subclass of a fake module class whose pollinterval parameter has the class default pi"""
+    key = ('default-interval', cls.__name__, pi)
+    if key not in _classes:
+        from frappy.core import Parameter
+        _classes[key] = type(cls.__name__, (cls,), {'pollinterval': Parameter(default=pi), '__doc__': cls.__doc__})
+    return _classes[key]
+
+
 # reference description of the fake classes, written by hand from the class bodies above (not derived from the poll
 # flags frappy computes): refresh groups = polled items -> fake functions that refresh them; nopoll functions
 REFRESH = {
@@ -437,6 +455,7 @@ LAYOUTS = {
     'S': (None, [('s', 'ModS0')]),
     'io+A+B': ('PlainIO', [('a', 'ModA'), ('b', 'ModB')]),
     'io+A+S': ('PlainIO', [('a', 'ModA'), ('s', 'ModS')]),
+    'io+B+S': ('PlainIO', [('b', 'ModB'), ('s', 'ModS')]),
     'io+S+T': ('PlainIO', [('s', 'ModS'), ('t', 'ModS')]),
     'IO+S': ('PolledIO', [('io', 'PolledIO'), ('s', 'ModS')]),
     'IO+A': ('PolledIO', [('io', 'PolledIO'), ('a', 'ModA')]),
@@ -461,7 +480,12 @@ class World:
         self.polled = []         # (name, class name, pollinterval, slowinterval)
         for (name, cname), (pi, si) in zip(mods, cfg['ivals']):
             c = modcfg.setdefault(name, {'cls': cls[cname]})
-            c['pollinterval'] = {'value': pi}
+            if cfg.get('pollcfg') == 'default':
+                # the poll interval is the *class default* (nothing configured): writeInitParams then has no pollinterval
+                # to write, so nothing sets the trigger event before the main loop
+                c['cls'] = with_default_interval(cls[cname], pi)
+            else:
+                c['pollinterval'] = {'value': pi}
             c['slowinterval'] = si
             if name != 'io' and ioclass:
                 c['io'] = 'io'
@@ -483,7 +507,7 @@ class World:
             self.saved[name] = ({pn: (po.value, po.timestamp, po.readerror) for pn, po in m.parameters.items()},
                                 dict(m.writeDict), {k: list(v) for k, v in m.paramCallbacks.items()})
         big = max(x for p in self.polled for x in p[2:])
-        self.horizon = 3 * big
+        self.horizon = cfg.get('hfactor', 3) * big
         self.event_alphabet = [None]
         for name, _, pi, _ in self.polled:
             for v in IVALS:
@@ -670,29 +694,44 @@ def judge(world, run):
                 due = t + ival
                 after = 'steady'
 
-    # M2 slow polls
+    # M2 slow polls: (a) idle time between two reads, (b) no starvation while overdue
+    slow_fns = {(name, fn): (name, label) for name, cname, _, _ in world.polled for label, fns in REFRESH[cname].items()
+                for fn in fns}
+
+    def starved(name, label, since, until):
+        """other polled items started more than twice within (since, until)"""
+        cnt = {}
+        for c in busy.started_between(since, until):
+            item = slow_fns.get((c[1], c[2]))
+            if item and item != (name, label):
+                cnt[item] = cnt.get(item, 0) + 1
+        return sorted((m, lb, n) for (m, lb), n in cnt.items() if n > 2)
+
     for name, cname, _, si in world.polled:
         for label, fns in REFRESH[cname].items():
             last = None
-            for r in trace:
+            reads = [r for r in trace if r[0] == 'started' or (r[0] == 'call' and r[1] == name and r[2] in fns)]
+            for r in reads + [('end', t_end)]:
+                t = r[1] if r[0] in ('started', 'end') else r[3]
                 if r[0] == 'started':
-                    last = r[1] if last is None else last
-                elif r[0] == 'call' and r[1] == name and r[2] in fns:
-                    if last is not None:
-                        idle = busy.idle(last, r[3]) if r[3] - last > 2 * si else 0.0
-                        if idle > 2 * si + EPS:
-                            res.append((f'C13:slow-poll:not-refreshed-within-2-slowintervals:{FNKIND[fns[0]]}',
-                                        f'{name}.{label}: read at t={rel(run, last)} and next at t={rel(run, r[3])}; the '
-                                        f'thread was idle for {idle:.4g}s in between (slowinterval {si:g})'))
-                            break
-                    last = r[3]
-            else:
-                if last is not None:
-                    idle = busy.idle(last, t_end)
+                    last = t if last is None else last
+                    continue
+                if last is not None and t - last > 2 * si:
+                    what = (f'{name}.{label}: read at t={rel(run, last)} and '
+                            + (f'not again until the end of the run t={rel(run, t)}' if r[0] == 'end' else f'next at t={rel(run, t)}'))
+                    idle = busy.idle(last, t)
                     if idle > 2 * si + EPS:
                         res.append((f'C13:slow-poll:not-refreshed-within-2-slowintervals:{FNKIND[fns[0]]}',
-                                    f'{name}.{label}: last read at t={rel(run, last)}, not again until the end of the run '
-                                    f't={rel(run, t_end)}; the thread was idle for {idle:.4g}s in between (slowinterval {si:g})'))
+                                    f'{what}; the thread was idle for {idle:.4g}s in between (slowinterval {si:g})'))
+                        break
+                    more = starved(name, label, last + 2 * si, t)
+                    if more:
+                        res.append((f'C13:slow-poll:starved-while-overdue:{FNKIND[fns[0]]}',
+                                    f'{what} (slowinterval {si:g}); after it was overdue by 2 x slowinterval '
+                                    + ', '.join(f'{m}.{lb} was read {n} times' for m, lb, n in more)))
+                        break
+                if r[0] == 'call':
+                    last = t
     return res
 
 
@@ -719,17 +758,26 @@ def configs(tier):
             res.append(cfg)
 
     matched = [(0.1, 0.1), (1, 2), (5, 15), (5, 2)]
+    # 'pollcfg': 'default' = the poll interval is the class default instead of a configured value (then writeInitParams has
+    # nothing to write for it and nothing sets the trigger event before the main loop); about half of the configurations
     for pair in matched:
-        add('A', [pair])
+        if pair in ((1, 2), (5, 15)):
+            add('A', [pair], pollcfg='default')
+        else:
+            add('A', [pair])
     add('A', [(1, 2)], phase=0, events='ext')
-    add('S', [(1, 0.1)])
-    add('io+S+T', [(1, 2)])
+    add('S', [(1, 0.1)], pollcfg='default')
+    add('io+S+T', [(1, 2)], pollcfg='default')
     add('io+S+T', [(5, 15), (1, 2)])
     add('io+S+T', [(0.1, 0.1), (1, 2)])
-    add('io+A+S', [(5, 15)])
+    add('io+A+S', [(5, 15)], pollcfg='default')
     add('io+A+B', [(1, 2)])
     add('IO+S', [(0, 2), (1, 2)], base='busy')
-    add('io+S+T', [(1, 2)], base='busy')
+    add('io+S+T', [(1, 2)], base='busy', pollcfg='default')
+    # saturated thread whose first module has several slow parameters: its slow sweep (3 reads of 0.3 x slowinterval plus
+    # the main polls of every turn) takes longer than its slowinterval, so it is due again whenever a sweep ends; the
+    # horizon is 8 x the largest interval so that a parameter of the second module can be overdue for several sweeps
+    add('io+B+S', [(1, 2)], base='busy', hfactor=8, pollcfg='default', bound=1 if tier == 'quick' else 2)
     # sequences of external events (fast on, interval change, fast off ...): <= 3 deviations, wake-ups only, with the
     # extended event alphabet (setFastPoll(True, 0))
     for layout, ivals in (('S', [(5, 15)]), ('S', [(1, 2)])):
@@ -750,7 +798,8 @@ def configs(tier):
         add('S', [(0.1, 15)])
         add('S', [(1, 15)])
         add('io+A+B', [(0.1, 2), (5, 2)])
-        add('io+S+T+U', [(1, 2)])
+        add('io+S+T+U', [(1, 2)], pollcfg='default')
+        add('io+B+S', [(1, 0.1), (1, 2)], base='busy', hfactor=8)
         add('io+S+T+U', [(0.1, 0.1), (1, 2), (5, 15)])
         add('io+A+S+T', [(5, 2), (1, 2), (0.1, 2)])
         add('io+S+T+U+V', [(1, 2)])
